@@ -212,7 +212,11 @@ type retained struct {
 // verify compares the retained slices with the copies; when is "next" (right
 // after the iteration finished) or "mutation" (after a later mutation + hash).
 func (rt *retained) verify(e *exec, when string) *fail {
-	e.st["iter_retained_checks_after_"+when]++
+	if when == "next" {
+		e.st["iter_retained_checks_after_next"]++
+	} else {
+		e.st["iter_retained_checks_after_mutation"]++
+	}
 	e.st["iter_retained_slices"] += int64(2 * len(rt.seq))
 	for i, p := range rt.seq {
 		if !bytes.Equal(rt.rawK[i], p.k) {
